@@ -124,10 +124,11 @@ func runPipeline(g *scheduler.ExecutionGraph, taskRunner *runner.TaskRunner, sum
 	}()
 
 	err := sd.Schedule(g)
+	// contexts are shut down whether the pipeline succeeded or not
+	sd.Finish()
 	if err != nil {
 		return err
 	}
-	sd.Finish()
 
 	fmt.Fprint(os.Stdout, "\r\n")
 
@@ -140,13 +141,10 @@ func runPipeline(g *scheduler.ExecutionGraph, taskRunner *runner.TaskRunner, sum
 
 func runTask(t *task.Task, taskRunner *runner.TaskRunner) error {
 	err := taskRunner.Run(t)
-	if err != nil {
-		return err
-	}
-
+	// contexts are shut down whether the task succeeded or not
 	taskRunner.Finish()
 
-	return nil
+	return err
 }
 
 func taskArgs(c *cli.Context) []string {
